@@ -12,6 +12,31 @@ namespace PsModel.C18
 
 def pyTraceback (chain : List Act) : List Entry := chain.map triple
 
+/-- the condition under which the first activation of a chain is not merged with the entry of the module body
+(a function of the file that carries the context's name) -/
+def FirstOk (m : ModAct) (chain : List Act) : Prop :=
+  ∀ a r, chain = a :: r → ¬(m.file = a.file ∧ (if m.file ≠ m.ctxName then some m.ctxName else none) = some a.func)
+
+/-- an import seen from evaluator `c0`: the imported file runs on another evaluator, at least one frame of the import
+machinery (real Python code, not a script file) precedes its body, and its chain has no adjacent equal activations -/
+def SegOk (c0 : Nat) (g : Seg) : Prop :=
+  c0 ≠ g.m.ctx ∧
+  (∃ r, g.reals.getLast? = some r ∧ ¬(r.file = g.m.file ∧ some r.fn = entryFunc none g.m.file g.m.ctxName)) ∧
+  NoAdj g.chain ∧ FirstOk g.m g.chain
+
+/-- nested imports of any depth: each one is seen from the innermost activation of the one before -/
+def SegsOk : Nat → List Seg → Prop
+  | _, [] => True
+  | c0, g :: r => SegOk c0 g ∧ SegsOk (lastCtx g.m.ctx g.chain) r
+
+/-- what Python's own traceback names for a file body, its chain and the nested imports below -/
+def pyImports (segs : List Seg) : List Entry := segs.flatMap segTriples
+
+/-- Python's last line: the class name and what `__str__` returns, wherever `__str__` is defined -/
+def pyLastLine (name : String) : StrImpl → String
+  | .native r => finalLine name (nativeStr r)
+  | .script r => finalLine name (nativeStr r)
+
 /-- the error (if any) of one occurrence: expression, then `@state_active`, then the function body -/
 def specRecs (o : Occ) : List Nat :=
   match o.expr with
